@@ -1498,7 +1498,7 @@ fn rt_scenario(tok: &[&str], out: &mut Out, l: &str) {
 }
 
 pub fn run(ops: &[String]) -> Vec<String> {
-	let trace = run_cases(ops, Some(Duration::from_millis(8000)), exec);
+	let trace = run_cases(ops, Some(Duration::from_secs(30)), exec);
 	if std::env::var("KV_ORACLE_STATS").is_ok() {
 		for (i, n) in CHECK_NAMES.iter().enumerate() {
 			eprintln!("oracle-premise {} {}", n, CHECKS[i].load(Ordering::Relaxed));
